@@ -106,10 +106,19 @@ def extract(tree):
         raise ExtractError("findmem: vacated slot set to %s" % m.group(1))
     sc["symMoveVacatedDeleted"] = m.group(1) == "JANET_SYMCACHE_DELETED"
     b = csrc.func_body(sym, "janet_symbol_deinit")
-    m = _need(re.search(r"if\s*\(\s*status\s*\)\s*\{\s*janet_vm\.cache_count--\s*;\s*janet_vm\.cache_deleted\+\+\s*;\s*\*bucket\s*=\s*(\w+)\s*;", b), "janet_symbol_deinit body")
-    if m.group(1) not in ("JANET_SYMCACHE_DELETED", "NULL"):
-        raise ExtractError("janet_symbol_deinit: slot set to %s" % m.group(1))
-    sc["symDeinitWritesDeleted"] = m.group(1) == "JANET_SYMCACHE_DELETED"
+    # structure, not statement order: under `if (status)` the function decrements cache_count, increments cache_deleted and
+    # stores ONE constant into *bucket (the model's `deinit` has a single unconditional write)
+    m = _need(re.search(r"if\s*\(\s*status\s*\)\s*\{", b), "janet_symbol_deinit: `if (status) {`")
+    blk = b[m.end() - 1:csrc.match_brace(b, m.end() - 1)]
+    writes = re.findall(r"\*\s*bucket\s*=\s*([^;]+);", blk)
+    stmts = [re.sub(r"\s+", "", x) for x in blk.strip()[1:-1].split(";") if x.strip()]
+    want_stmts = {"janet_vm.cache_count--", "janet_vm.cache_deleted++"}
+    if len(writes) != 1 or set(stmts) - {"*bucket=" + re.sub(r"\s+", "", writes[0])} != want_stmts or len(stmts) != 3:
+        raise ExtractError("janet_symbol_deinit body not recognised (expected exactly: cache_count--, cache_deleted++, one store to *bucket; found %r)" % stmts)
+    w = writes[0].strip()
+    if w not in ("JANET_SYMCACHE_DELETED", "NULL"):
+        raise ExtractError("janet_symbol_deinit: slot set to %s" % w)
+    sc["symDeinitWritesDeleted"] = w == "JANET_SYMCACHE_DELETED"
     b = csrc.func_body(sym, "janet_symcache_put")
     _need(re.search(r"if\s*\(\s*\(janet_vm\.cache_count\s*\+\s*janet_vm\.cache_deleted\)\s*\*\s*2\s*>\s*janet_vm\.cache_capacity\s*\)\s*\{\s*int\s+status\s*;\s*"
                     r"janet_cache_resize\s*\(\s*janet_tablen\s*\(\s*\(\s*2\s*\*\s*janet_vm\.cache_count\s*\+\s*1\s*\)\s*\)\s*\)\s*;\s*bucket\s*=\s*janet_symcache_find\s*\(\s*x\s*,\s*&status\s*\)\s*;\s*\}\s*"
@@ -117,8 +126,111 @@ def extract(tree):
     b = csrc.func_body(sym, "janet_symcache_init")
     m = _need(re.search(r"janet_vm\.cache_capacity\s*=\s*(\d+)\s*;", b), "janet_symcache_init capacity")
     sc["symCacheInitCap"] = int(m.group(1))
+    sc.update(gensym_facts(sym, csrc.strip_comments(csrc.read(tree, "src/core/state.h"))))
     c["_sym"] = sc
     return c, {k: ty[k] for k in want}
+
+
+def _loops(body):
+    """every loop of a function body as (kind, condition text, text of the loop body incl. condition): do/while, while, for.
+    Located by structure (keyword + balanced parentheses / braces), not by layout."""
+    out = []
+    for m in re.finditer(r"\b(do|while|for)\b", body):
+        kind, i = m.group(1), m.end()
+        if kind == "do":
+            j = body.find("{", i)
+            if j < 0 or body[i:j].strip():
+                continue
+            e = csrc.match_brace(body, j)
+            mw = re.match(r"\s*while\s*\(", body[e:])
+            if not mw:
+                continue
+            k = e + mw.end() - 1
+            ce = _match_paren(body, k)
+            out.append(("do", body[k + 1:ce - 1], body[j:ce]))
+        else:
+            mp = re.match(r"\s*\(", body[i:])
+            if not mp:
+                continue
+            k = i + mp.end() - 1
+            ce = _match_paren(body, k)
+            rest = body[ce:]
+            if kind == "while" and re.match(r"\s*;", rest):
+                continue                      # the tail of a do/while
+            mb = re.match(r"\s*\{", rest)
+            if mb:
+                be = csrc.match_brace(body, ce + mb.end() - 1)
+            else:
+                be = body.find(";", ce) + 1
+            out.append((kind, body[k + 1:ce - 1], body[k:be]))
+    return out
+
+
+def _match_paren(src, i):
+    assert src[i] == "("
+    depth = 0
+    while i < len(src):
+        if src[i] == "(":
+            depth += 1
+        elif src[i] == ")":
+            depth -= 1
+            if depth == 0:
+                return i + 1
+        i += 1
+    raise ExtractError("unbalanced parenthesis")
+
+
+def gensym_facts(sym, stateh):
+    """janet_symbol_gen / inc_gensym / the counter's initialisation (symcache.c), as data for Value/SymGen.lean:
+       * gensymProbeLoop: the probe `janet_symcache_findmem(janet_vm.gensym_counter, …, &status)` sits in a loop that
+         repeats while `status` (found) and advances the counter with inc_gensym() on every repetition, and the bucket of the
+         failed probe goes to janet_symcache_put  (structure, not text: do/while, while or for are all accepted);
+       * gensymSteps: the special digit transitions of inc_gensym in source order (from, to, carry?) - every other digit is
+         incremented and the loop stops; gensymDigits: the positions it walks (sizeof-2 down to 1);
+       * gensymInit: the initial counter bytes (memset '0', [0] = '_'), name length sizeof-1."""
+    f = {}
+    m = _need(re.search(r"uint8_t\s+gensym_counter\s*\[\s*(\d+)\s*\]\s*;", stateh), "state.h gensym_counter declaration")
+    size = int(m.group(1))
+    b = csrc.func_body(sym, "janet_symcache_init")
+    m = _need(re.search(r"memset\s*\(\s*&?\s*janet_vm\.gensym_counter\s*,\s*'(.)'\s*,\s*sizeof\s*\(\s*janet_vm\.gensym_counter\s*\)\s*\)\s*;\s*"
+                        r"janet_vm\.gensym_counter\s*\[\s*0\s*\]\s*=\s*'(.)'\s*;", b), "janet_symcache_init: gensym counter initialisation")
+    f["gensymInit"] = [ord(m.group(2))] + [ord(m.group(1))] * (size - 2)
+    # ---- inc_gensym
+    b = csrc.func_body(sym, "inc_gensym")
+    ctr = r"janet_vm\.gensym_counter"
+    m = _need(re.search(r"for\s*\(\s*int\s+(\w+)\s*=\s*sizeof\s*\(\s*" + ctr + r"\s*\)\s*-\s*2\s*;\s*\1\s*;\s*\1--\s*\)\s*\{", b), "inc_gensym loop header (sizeof-2 down to 1)")
+    iv = m.group(1)
+    loop = b[m.end() - 1:csrc.match_brace(b, m.end() - 1)]
+    cell = ctr + r"\s*\[\s*" + iv + r"\s*\]"
+    steps, pos = [], 1
+    while True:
+        mm = re.match(r"\s*(?:else\s+)?if\s*\(\s*" + cell + r"\s*==\s*'(.)'\s*\)\s*\{\s*" + cell + r"\s*=\s*'(.)'\s*;\s*(break\s*;)?\s*\}", loop[pos:])
+        if not mm:
+            break
+        steps.append((ord(mm.group(1)), ord(mm.group(2)), mm.group(3) is None))
+        pos += mm.end()
+    _need(re.fullmatch(r"\s*else\s*\{\s*" + cell + r"\s*\+\+\s*;\s*break\s*;\s*\}\s*\}\s*", loop[pos:]), "inc_gensym: final `else { counter[i]++; break; }`")
+    if not steps:
+        raise ExtractError("inc_gensym: no digit transitions recognised")
+    f["gensymSteps"] = steps
+    f["gensymNameLen"] = size - 1
+    # ---- janet_symbol_gen: structure of the probe loop
+    b = csrc.func_body(sym, "janet_symbol_gen")
+    probe = r"janet_symcache_findmem\s*\(\s*" + ctr
+    if len(re.findall(probe, b)) == 0:
+        raise ExtractError("janet_symbol_gen: probe of the gensym counter not found")
+    ok = False
+    for kind, cond, text in _loops(b):
+        inner = text
+        if re.search(probe, inner) and re.search(r"\bstatus\b", cond) and not re.search(r"!\s*status\b", cond) and re.search(r"\binc_gensym\s*\(\s*\)", inner):
+            # every probe of the counter must be inside this loop, except a first probe in front of a `while (status) { inc; probe }`
+            outside = len(re.findall(probe, b.replace(text, "", 1)))
+            if outside == 0 or (kind == "while" and outside == 1):
+                ok = True
+    f["gensymProbeLoop"] = ok
+    _need(re.search(r"janet_symcache_put\s*\(\s*\(const\s+uint8_t\s*\*\)\s*\w+\s*,\s*bucket\s*\)\s*;", b), "janet_symbol_gen: janet_symcache_put(sym, bucket)")
+    _need(re.search(r"memcpy\s*\(\s*\w+\s*,\s*" + ctr + r"\s*,\s*sizeof\s*\(\s*" + ctr + r"\s*\)\s*\)\s*;", b), "janet_symbol_gen: the new symbol's bytes are the counter")
+    return f
 
 
 GUARD_TAGS = [
@@ -242,6 +354,12 @@ def render(tree):
     out.append("abbrev symMoveVacatedDeleted : Bool := %s" % ("true" if sc["symMoveVacatedDeleted"] else "false"))
     out.append("abbrev symDeinitWritesDeleted : Bool := %s" % ("true" if sc["symDeinitWritesDeleted"] else "false"))
     out.append("abbrev symCacheInitCap : Nat := %d" % sc["symCacheInitCap"])
+    out.append("\n/-- symcache.c janet_symbol_gen / inc_gensym: the probe of the counter is repeated (with inc_gensym) until it misses;")
+    out.append("    the special digit transitions of inc_gensym (from, to, carry into the next position?) in source order, any other")
+    out.append("    digit is incremented; initial counter (the symbol name: sizeof(gensym_counter) - 1 bytes) -/")
+    out.append("abbrev gensymProbeLoop : Bool := %s" % ("true" if sc["gensymProbeLoop"] else "false"))
+    out.append("abbrev gensymSteps : List (Nat × Nat × Bool) := [%s]" % ", ".join("(%d, %d, %s)" % (a, b2, "true" if cy else "false") for a, b2, cy in sc["gensymSteps"]))
+    out.append("abbrev gensymInit : List Nat := [%s]" % ", ".join(str(x) for x in sc["gensymInit"][:sc["gensymNameLen"]]))
     out.append("\n/-- struct.c janet_struct_put_ext / table.c janet_table_put: the early-return guards in front of the probe, in source order")
     out.append("    (which puts are ignored: nil key or value, NaN key, struct already full), and the fields the duplicate-key branch")
     out.append("    (`status == 0`, under `replace`) writes -/")
